@@ -159,7 +159,12 @@ type Req struct {
 	ContentType string `json:"content_type,omitempty"`
 	Depth       string `json:"depth,omitempty"`     // "" = header absent
 	Overwrite   string `json:"overwrite,omitempty"` // "" = header absent
-	// DestForm: "path", "url", "slash", "missing", "garbage", "relative", "nopath".
+	// PathForm: "" (canonical) or a non-canonical spelling of the same request
+	// path: "dotseg" (/a/./b), "dblslash" (/a//b), "updown" (/zz/../a/b).
+	PathForm string `json:"path_form,omitempty"`
+	// DestForm: "path", "url", "slash", "missing", "garbage", "relative",
+	// "nopath", or a non-canonical spelling of the destination path: "dotseg",
+	// "dblslash", "updown".
 	DestForm string `json:"dest_form,omitempty"`
 	Dest     string `json:"dest,omitempty"`
 	// PropBody: "" (empty body), "five" (the client's five-property request).
@@ -223,11 +228,37 @@ func InUniverse(r Req) bool {
 		if r.Path == "/" {
 			return false
 		}
-		if (r.DestForm == "path" || r.DestForm == "url" || r.DestForm == "slash") && r.Dest == "/" {
+		if DestNamesPath(r.DestForm) && r.Dest == "/" {
 			return false
 		}
 	}
 	return true
+}
+
+// DestNamesPath reports whether the Destination form denotes the path Dest.
+func DestNamesPath(form string) bool {
+	switch form {
+	case "path", "url", "slash", "dotseg", "dblslash", "updown":
+		return true
+	}
+	return false
+}
+
+// Spell renders p in a non-canonical spelling that cleans to p.
+func Spell(p, form string) string {
+	i := strings.LastIndex(p, "/")
+	switch form {
+	case "dotseg":
+		return p[:i] + "/." + p[i:]
+	case "dblslash":
+		if i == 0 {
+			return "/./" + p
+		}
+		return p[:i] + "/" + p[i:]
+	case "updown":
+		return "/zz/.." + p
+	}
+	return p
 }
 
 func validDepth(s string) bool { return s == "0" || s == "1" || s == "infinity" }
@@ -361,7 +392,7 @@ func stepCopyMove(t Tree, r Req) []Outcome {
 	if sk == Absent {
 		codes = append(codes, 404)
 	}
-	destKnown := r.DestForm == "path" || r.DestForm == "url" || r.DestForm == "slash"
+	destKnown := DestNamesPath(r.DestForm)
 	var successAlt *Outcome
 	if destKnown {
 		d := r.Dest
